@@ -25,13 +25,13 @@ PROPS["C14"] = dict(
 )
 
 PROPS["C01"] = dict(
-    units=[("verus", "scanner"), ("kani", "prec")],
+    units=[("verus", "scanner"), ("kani", "prec"), ("verus", "driver")],
     explanation="Every Scanner method is verified panic-free (all indexing and slicing in bounds, no overflow), terminating "
                 "(decreases on the remaining input) and progressing (next_token strictly advances and returns Eof at end of input) "
                 "for every input text; the Pratt loop's termination invariant (a token that can continue an expression has an infix parser) "
-                "holds for every token type.",
-    not_covered=["panic-freedom of the expression parsers and of compile_* (recursion depth, radix literal slices)",
-                 "that main executes only programs without diagnostics (driver unit, when built)"],
+                "holds for every token type. main.rs: parse_program returns Some only for a program without diagnostics, and in run_buf/run_prompt "
+                "VM::run is reachable only with bytecode from a compiler whose compile() returned Ok on such a program.",
+    not_covered=["panic-freedom of the expression parsers, statement parsers and of compile_* (recursion depth, radix literal slices, Statement::Invalid reaching the compiler)"],
     assumptions=["Unicode classification (is_alphabetic/is_alphanumeric) is uninterpreted except: NUL is in no class, alphabetic implies alphanumeric",
                  "fewer than 2^64 - 2 characters/tokens are scanned (read_position does not overflow)",
                  "string building shims (collect, to_string, format!) return some String"],
@@ -119,6 +119,33 @@ PROPS["C17"] = dict(
                 "inside the field's bit range; re-parsing reads the same value.",
     not_covered=["address setters (string parsing, C18)", "sequences of assignments (follow from the frame condition of each setter)", "exec_prop_* wiring"],
     assumptions=[],
+    trusted=COMMON_TRUST,
+)
+
+PROPS["C19"] = dict(
+    units=[("kani", "pcapcodec")],
+    explanation="Global and record header codecs verified on all 24/16 header bytes: accepted magics, little-endian field layout, encode(decode(b)) == b; short buffers are errors.",
+    not_covered=["Pcap::next_packet / pcap_read_all record loop against the stream model (pcap Verus unit, when built)", "OS delivery of file bytes"],
+    assumptions=[],
+    trusted=COMMON_TRUST,
+)
+
+PROPS["C21"] = dict(
+    units=[("verus", "fileio")],
+    explanation="read_from_file verified against std::io::Read's contract over a ghost byte stream, for every chunking schedule: the result is exactly the next min(n, remaining) bytes, the stream advanced by as much, or an error object.",
+    not_covered=["read_line / read_to_string (thin wrappers over std)", "open-mode table (OpenOptions chains)", "BufWriter flushing at exit"],
+    assumptions=["std::io::Read::read: Ok(0) only at end of input or for an empty buffer; Ok(k) delivers the next k <= buf.len() bytes"],
+    trusted=COMMON_TRUST,
+)
+
+PROPS["C23"] = dict(
+    units=[("verus", "driver")],
+    explanation="In the real run_prompt loop, at both exits of an iteration that rejected the line (parse error, compile error) the accumulated "
+                "(symtab, constants, globals) equal their values when the line was read; VM::run is only reached with bytecode of an accepted line.",
+    not_covered=["first clause of the property (accepted lines behave like one script): whole-program equivalence",
+                 "state after a runtime error"],
+    assumptions=["Compiler::new_with_state/compile/bytecode, VM::new_with_global_store/run are opaque behind ghost-token contracts",
+                 "derived Clone of SymbolTable / Vec<Rc<Object>> is a structural copy"],
     trusted=COMMON_TRUST,
 )
 
